@@ -12,4 +12,6 @@ func rawLimbs(e *secp256k1.Element) (x, y, z [4]uint64) { return secp256k1.Verif
 func setRawLimbs(e *secp256k1.Element, x, y, z [4]uint64) { secp256k1.VerifSetLimbs(e, x, y, z) }
 
 // ExpandXMD calls the package's expander with a chosen length (white-box builds only).
-func ExpandXMD(msg, dst []byte, n uint) ([]byte, bool) { return secp256k1.VerifExpandXMD(msg, dst, n), true }
+func ExpandXMD(msg, dst []byte, n uint) ([]byte, bool) {
+	return secp256k1.VerifExpandXMD(msg, dst, n), true
+}
